@@ -173,9 +173,25 @@ func (fm *c01Frame) execCalls(n ast.Node, o c01Out) []c01Out {
 					}
 				}
 			}
+			// state kept in the decoder's own fields travels with the calls that can reach it: through the decoder
+			// fields the callee (or what it calls) mentions, or through a pointer it is handed
+			ddPass := func(k string) bool {
+				if !strings.HasPrefix(k, "dd.") {
+					return false
+				}
+				if fm.fr.touchesDD(tf)[c01RootOf(k[3:])] {
+					return true
+				}
+				for _, a := range args {
+					if a.k == 'R' && strings.HasPrefix(a.s, "dd.") && strings.HasPrefix(k, a.s) {
+						return true
+					}
+				}
+				return false
+			}
 			for k, v := range cur.st.cells {
-				if strings.HasPrefix(k, "dd.") {
-					in.cells[k] = v // state kept in the decoder's own fields travels with every call
+				if ddPass(k) {
+					in.cells[k] = v
 				}
 			}
 			for _, ex := range fm.fr.run(tf, in, args, fm.depth+1) {
@@ -192,7 +208,7 @@ func (fm *c01Frame) execCalls(n ast.Node, o c01Out) []c01Out {
 					}
 				}
 				for k := range nx.st.cells {
-					if strings.HasPrefix(k, "dd.") {
+					if ddPass(k) {
 						delete(nx.st.cells, k)
 					}
 				}
@@ -269,8 +285,19 @@ func (fm *c01Frame) flagDesc(st c01St) string {
 func (fm *c01Frame) uses(n ast.Node, ev *c01Ev) {
 	fr := fm.fr
 	info := fr.info
+	var useExpr ast.Expr
 	report := func(idx int, pos token.Pos, how string) {
 		f := fr.fields[idx]
+		if ev.st.fields[idx] == 'N' && useExpr != nil {
+			// `dec.F != nil && dec.F.X()`: the right operand is not evaluated when the field is nil
+			for _, ft := range c06ShortCircuitFacts(fm.f.par, useExpr) {
+				if x, neq, ok := c01NilCmp(ft.expr); ok && neq == ft.val && ast.Unparen(x) != nil {
+					if g, tracked := fm.trackedField(x); tracked && fr.fieldIdx[g] == idx {
+						return
+					}
+				}
+			}
+		}
 		if fr.usePos[f] == nil {
 			fr.usePos[f] = map[token.Pos]bool{}
 		}
@@ -349,6 +376,7 @@ func (fm *c01Frame) uses(n ast.Node, ev *c01Ev) {
 			}
 			break
 		}
+		useExpr = e
 		switch p := parent.(type) {
 		case *ast.BinaryExpr:
 			if _, _, isNil := c01NilCmp(p); isNil {
@@ -414,3 +442,26 @@ func (fr *c01Fresh) touches(fi *FuncInfo) []bool {
 }
 
 var c01TouchCache = map[*types.Func][]bool{}
+
+// touchesDD: the names of the decoder's own fields that fi, or a function of the package reachable from it, selects.
+func (fr *c01Fresh) touchesDD(fi *FuncInfo) map[string]bool {
+	if t, ok := c01TouchDDCache[fi.Obj]; ok {
+		return t
+	}
+	t := map[string]bool{}
+	dd := namedPath(fr.cm.m.ddT)
+	for _, g := range c01Reachable(fr.r.P, fi) {
+		ast.Inspect(g.Decl.Body, func(n ast.Node) bool {
+			if sel, ok := n.(*ast.SelectorExpr); ok {
+				if f := fieldOf(fr.info, sel); f != nil && namedPath(selRecv(fr.info, sel)) == dd {
+					t[f.Name()] = true
+				}
+			}
+			return true
+		})
+	}
+	c01TouchDDCache[fi.Obj] = t
+	return t
+}
+
+var c01TouchDDCache = map[*types.Func]map[string]bool{}
